@@ -68,10 +68,11 @@ func (u *upConn) snapshot() (reqs []int, answered int, peerClosed, selfClosed bo
 }
 
 type upstream struct {
-	kind  poolKind
-	ln    net.Listener
-	mu    sync.Mutex
-	conns []*upConn
+	kind          poolKind
+	ln            net.Listener
+	mu            sync.Mutex
+	conns         []*upConn
+	closeOnAccept string // "fin" / "rst": the next accepted connection is closed at once (consumed by the accept)
 }
 
 func newUpstream(kind poolKind) (*upstream, error) {
@@ -123,7 +124,19 @@ func (u *upstream) acceptLoop() {
 		u.mu.Lock()
 		uc := &upConn{idx: len(u.conns), c: c}
 		u.conns = append(u.conns, uc)
+		mode := u.closeOnAccept
+		u.closeOnAccept = ""
 		u.mu.Unlock()
+		if mode != "" {
+			uc.mu.Lock()
+			uc.selfClosed = true
+			uc.mu.Unlock()
+			if tc, ok := c.(*net.TCPConn); ok && mode == "rst" {
+				tc.SetLinger(0)
+			}
+			c.Close()
+			continue
+		}
 		if u.kind == kHTTP1 {
 			go uc.readHTTP()
 		} else {
@@ -253,7 +266,52 @@ type vhost struct {
 	types.Host
 	mu      sync.Mutex
 	fail    int // 0 dial normally, 1 connection refused (api.ConnectFailed), 2 dial times out (api.ConnectTimeout)
+	evs     []*evRec
+	lastWindow *windowConn
+	window  bool // the next connection's Connect() returns only after the upstream's immediate close has reached mosn
 	created []types.ClientConnection
+}
+
+type evRec struct {
+	mu  sync.Mutex
+	evs []string
+}
+
+func (e *evRec) OnEvent(ev api.ConnectionEvent) {
+	e.mu.Lock()
+	e.evs = append(e.evs, string(ev))
+	e.mu.Unlock()
+}
+
+// windowConn holds Connect() open until the close of the freshly dialled connection (the scripted upstream closes it on
+// accept) has been noticed by the connection's read goroutine, i.e. the close event is delivered (or is waiting for the
+// pool's lock) BEFORE the pool's connect path goes on to store / count the client.
+type windowConn struct {
+	types.ClientConnection
+	head, tail *evRec
+}
+
+func (e *evRec) sawClose() bool {
+	e.mu.Lock()
+	defer e.mu.Unlock()
+	for _, ev := range e.evs {
+		if api.ConnectionEvent(ev).IsClose() {
+			return true
+		}
+	}
+	return false
+}
+
+func (c *windowConn) Connect() error {
+	// the pool has registered its listeners by now: a listener added here runs after them
+	c.ClientConnection.AddConnectionEventListener(c.tail)
+	err := c.ClientConnection.Connect()
+	if err == nil {
+		// the delivery of the close event has started (first listener) ...
+		waitFor(500*time.Millisecond, c.head.sawClose)
+		time.Sleep(500 * time.Microsecond) // ... and the pool's handlers run up to the pool's lock, or to the end
+	}
+	return err
 }
 
 const (
@@ -294,8 +352,17 @@ func (h *vhost) CreateConnection(ctx context.Context) types.CreateConnectionData
 		return types.CreateConnectionData{Connection: c, Host: h}
 	}
 	d := h.Host.CreateConnection(ctx)
+	rec := &evRec{}
+	d.Connection.AddConnectionEventListener(rec) // first listener: sees every event the connection delivers
+	h.evs = append(h.evs, rec)
 	h.created = append(h.created, d.Connection)
 	d.Host = h
+	if h.window {
+		h.window = false
+		wc := &windowConn{ClientConnection: d.Connection, head: rec, tail: &evRec{}}
+		h.lastWindow = wc
+		d.Connection = wc
+	}
 	return d
 }
 
@@ -385,6 +452,8 @@ type world struct {
 	byConnID map[uint64]*cliRec
 	leases   []*lease
 	ext      int
+	failedDials int
+	lastCoq  []string // model operations the last harness op stands for (nil: the op's own)
 	timeouts []string // waits that expired (reported; a hang is visible as a mismatch or a finder failure)
 }
 
@@ -469,6 +538,17 @@ const (
 // registerNewClients: connections the pool created during the last call become clients in creation order.
 func (w *world) registerNewClients() {
 	w.host.mu.Lock()
+	// a connection whose dial failed (e.g. the upstream's RST-on-accept can reach the dialler before connect() reports
+	// success) never existed for the pool: it is a failed dial, not a client
+	kept := w.host.created[:0]
+	for i, c := range w.host.created {
+		if i < len(w.clients) || c.State() != api.ConnInit {
+			kept = append(kept, c)
+		} else {
+			w.failedDials++
+		}
+	}
+	w.host.created = kept
 	created := append([]types.ClientConnection(nil), w.host.created...)
 	w.host.mu.Unlock()
 	for len(w.clients) < len(created) {
@@ -483,6 +563,28 @@ func (w *world) registerNewClients() {
 		w.clients = append(w.clients, c)
 		w.byConnID[conn.ID()] = c
 	}
+}
+
+// armWindow: the next connection dialled by the pool is closed by the upstream on accept (FIN or RST) and its Connect()
+// returns only after mosn has noticed; disarm clears what was not consumed.
+// settleWindow waits until every listener of the connection dialled in the window has handled the close event
+func (w *world) settleWindow() {
+	w.host.mu.Lock()
+	wc := w.host.lastWindow
+	w.host.lastWindow = nil
+	w.host.mu.Unlock()
+	if wc != nil && wc.ClientConnection.State() != api.ConnInit {
+		w.wait("window-close-handled", time.Second, wc.tail.sawClose)
+	}
+}
+
+func (w *world) armWindow(mode string) {
+	w.up.mu.Lock()
+	w.up.closeOnAccept = mode
+	w.up.mu.Unlock()
+	w.host.mu.Lock()
+	w.host.window = mode != ""
+	w.host.mu.Unlock()
 }
 
 func (w *world) newStream(dial int, send bool) int {
